@@ -18,3 +18,27 @@ package bpv7
 // govc:func HopCountBlock.IsExceeded property C06 C02
 //@ assigns nothing
 //@ ensures result == (hcb.Count > hcb.Limit)
+
+// govc:func (*BundleAgeBlock).Increment property C06
+//@ assigns *bab
+//@ ensures *bab == BundleAgeBlock(uint64(old(*bab)) + offset)
+//@ ensures result == uint64(old(*bab)) + offset
+
+// govc:func (*BundleAgeBlock).Age property C06
+//@ assigns nothing
+//@ ensures result == uint64(*bab)
+
+// govc:func (BundleControlFlags).Has property C02 C15
+//@ assigns nothing
+//@ ensures result == ((bcf & flag) != 0)
+
+// BPv7 4.1.3: a fragment must not carry must-not-fragment; an administrative record must not request status reports.
+// govc:func (BundleControlFlags).CheckValid property C02
+//@ assigns nothing
+//@ ensures errs == nil ==> !((bcf & 0x01) != 0 && (bcf & 0x04) != 0)
+//@ ensures errs == nil ==> ((bcf & 0x02) != 0 ==> (bcf & 0x004000) == 0 && (bcf & 0x010000) == 0 && (bcf & 0x020000) == 0 && (bcf & 0x040000) == 0)
+//@ ensures errs != nil ==> ((bcf & 0x01) != 0 && (bcf & 0x04) != 0) || ((bcf & 0x02) != 0 && (bcf & 0x074000) != 0)
+
+// govc:func (BlockControlFlags).Has property C02 C06
+//@ assigns nothing
+//@ ensures result == ((bcf & flag) != 0)
